@@ -372,6 +372,22 @@ fn c10_new_many_iter() {
 }}
 
 l2_harness! {
+/// new_many_iter over EVERY count (C10: "for every N/count"), partial correctness: the constructor may
+/// refuse a count the strong-count field cannot represent (by panicking), but it never RETURNS an
+/// object whose count differs from the number of owners it is about to hand out (defect F13: the
+/// count was silently truncated, `count as u32` into a 29-bit field).
+fn c10_new_many_iter_any_count_partial() {
+    let count: usize = kani::any();
+    kani::assume(count >= 1);
+    let it = Rc::new_many_iter(N { v: 4 }, count);
+    let w = word(it.ptr);
+    let (s, wk, d, k, _e) = peek(addr_of(w) as *const RcInner<N>);
+    assert!(s as usize == count && it.remain == count && wk == 1 && !d && !k, "C10.new_many_iter.never_returns_fewer_owners_than_it_hands_out");
+    kani::cover!(count > (1 << 28), "cover.new_many_iter.count_beyond_a_range_accepted");
+    core::mem::forget(it);
+}}
+
+l2_harness! {
 /// NewRcIter as a data structure: yielded + remain is conserved by next; drop/abort release exactly
 /// the unyielded remainder in one decrement (any remain => every prefix, by induction on calls).
 fn c10_iter_next_drop_abort() {
